@@ -663,7 +663,8 @@ def vi_case(rng, idx):
     property: each buffer keeps its own row and offset."""
     nf = rng.choice([3, 3, 4])
     names = ['v%d' % (i + 1) for i in range(nf)]
-    files = {nm: ['%s_%d_abcdefgh' % (nm, j) for j in range(6)] for nm in names}
+    files = {nm: ['%s_%02d_abcdefgh' % (nm, j) for j in range(40)] for nm in names}
+    top = {}
     keys = []
     pos = {}
     # open and park: file k via :next (zJ) so that the argument list position moves along
@@ -673,9 +674,10 @@ def vi_case(rng, idx):
         if k > 0:
             keys.append('zJ')
             cur = k
-        r, c = rng.range(1, 6), rng.range(1, 12)
-        keys.append('%dG%d|' % (r, c))
-        pos[names[k]] = (r - 1, c - 1)
+        r, d, c = rng.range(3, 15), rng.range(0, 5), rng.range(1, 12)
+        keys.append('%dGz\n' % r + ('%dj' % d if d else '') + '%d|' % c)      # window top = row r, cursor d lines below
+        pos[names[k]] = (r - 1 + d, c - 1)
+        top[names[k]] = r - 1
     # ids are 1..nf in opening order; MRU list: last opened first
     mru = list(reversed(order))
     mark = 0
@@ -741,6 +743,9 @@ def vi_case(rng, idx):
         keys.append('i%s\x1b:w\n' % tag)
         ln = expect[nm][r]
         expect[nm][r] = ln[:c] + tag + ln[c:]
+        # H goes to the first line of the window: a marker there shows the restored xtop
+        keys.append('HiT%d\x1b:w\n' % mark)
+        expect[nm][top[nm]] = 'T%d' % mark + expect[nm][top[nm]]
     keys.append(':q!\n:q!\n')
     return names, files, ''.join(keys), expect
 
@@ -844,7 +849,7 @@ def run(ctx):
             if 'cmds' in j:
                 files, args, cmds = hist_from_json(j)
                 hists.append(('corpus:' + fn, files, args, cmds))
-        nh = 260 if ctx.quick else 6000
+        nh = 800 if ctx.quick else 12000
         for i in range(nh):
             r = rng.fork('h%d' % i)
             style = ['mixed', 'mixed', 'wa', 'full16', 'few'][i % 5]
@@ -943,7 +948,7 @@ def run(ctx):
             if 'keys' in j:
                 vcases.append((j['names'], j['files'], j['keys'], j['expect']))
         i = 0
-        want = 60 if ctx.quick else 1500
+        want = 150 if ctx.quick else 3000
         while len(vcases) < want and i < want * 3:
             c = vi_case(rng.fork('v%d' % i), i)
             i += 1
